@@ -316,6 +316,50 @@ def check(ctx: Ctx) -> list[RuleResult]:
         r5.fail(f"{wr.short}:proper-reply-ignored:{'header-equal' if hdr_equal(a0) else '0418-null-entry'}", wr.loc(), f"{what} is not accepted: the command is retried and fails although the device answered: " + tab.describe({k: v for k, v in a0.items() if k != "__effects__"})[:300])
     else:
         r5.ok({"always_accepted": "header == rx_header; the 0418 null-entry", "rows": len(rows)})
+    # the same for a reply that overtakes the echo (WantEcho): it is taken as the reply exactly when its header equals the reply
+    # header and it is addressed to the command's sender - either literally, or (command built with the 18:000730 placeholder) to
+    # the gateway's real id. Read off the decision table of WantEcho.pkt_rcvd.
+    we2 = repo.func(f"{F}.WantEcho.pkt_rcvd")
+    hgi = ctx.const("ramses_tx.address", "HGI_DEVICE_ID")
+    try:
+        tabe = PredEval(ctx, we2, domains={"self._sent_cmd.src.id": [hgi]}).table()
+    except Unsupported as err:
+        raise AnalysisError(f"WantEcho.pkt_rcvd is not a decision procedure the evaluator understands: {err}") from err
+    A_RX = next((a for a in tabe.atoms if a.replace(" ", "") in ("pkt._hdr==self._sent_cmd.rx_header", "self._sent_cmd.rx_header==pkt._hdr")), None)
+    A_HAS = next((a for a in tabe.atoms if a == "self._sent_cmd.rx_header"), None)
+    A_DST = next((a for a in tabe.atoms if a.replace(" ", "") in ("pkt.dst.id==self._sent_cmd.src.id", "self._sent_cmd.src.id==pkt.dst.id")), None)
+    A_REAL = next((a for a in tabe.atoms if "pkt.dst.id" in a and "hgi_id" in a and "==" in a), None)
+    if A_RX is None:
+        raise AnalysisError(f"WantEcho.pkt_rcvd: no test of pkt._hdr against rx_header found (atoms: {tabe.atoms})")
+    import itertools as _it2
+
+    want_atoms = [x for x in ("pkt.dst.id == self._sent_cmd.src.id", "pkt.dst.id == self._context._protocol.hgi_id") if x not in tabe.atoms]
+    rows_e = tabe.rows
+    if want_atoms:  # a test that is gone: complete the table with both of its values (see C10.R3/R4)
+        rows_e = [({**a, **dict(zip(want_atoms, bits))}, r) for a, r in tabe.rows for bits in _it2.product((False, True), repeat=len(want_atoms))]
+    D1, D2 = "pkt.dst.id == self._sent_cmd.src.id", "pkt.dst.id == self._context._protocol.hgi_id"
+
+    def early_reply(a: dict) -> bool:
+        return any("set_state(" in e and "result=pkt" in e.replace(" ", "") for e in a["__effects__"]) and not any("WantRply" in e for e in a["__effects__"])
+
+    def to_sender(a: dict) -> bool:
+        return bool(a[D1]) or (a.get("self._sent_cmd.src.id") == hgi and bool(a[D2]))
+
+    def is_reply(a: dict) -> bool:
+        return bool(a[A_RX]) and (A_HAS is None or bool(a[A_HAS]))
+
+    r5.instances += 1
+    r5.nontrivial += 1
+    # rows in which the packet is *not* the echo (so the only way to a result is the early-reply branch)
+    not_echo = [(a, r) for a, r in rows_e if all(a[k] for k in tabe.atoms if "tx_header" in k and "!=" in k)]
+    lost = [a for a, _r in not_echo if is_reply(a) and to_sender(a) and not early_reply(a)]
+    wrong = [a for a, _r in not_echo if early_reply(a) and not (is_reply(a) and to_sender(a))]
+    if wrong:
+        r5.fail(f"{we2.short}:early-reply-accepts-other", we2.loc(), "while waiting for the echo, a packet is taken as the reply although it is not (header == rx_header and addressed to the command's sender): " + tabe.describe({k: v for k, v in wrong[0].items() if k != "__effects__"})[:300])
+    elif lost:
+        r5.fail(f"{we2.short}:early-reply-ignored", we2.loc(), "the proper reply, arriving before the echo and addressed to the command's sender (literally, or to the gateway's real id for a command built with the 18:000730 placeholder), is not taken as the reply: " + tabe.describe({k: v for k, v in lost[0].items() if k != "__effects__"})[:300])
+    else:
+        r5.ok({"WantEcho": "a reply that overtakes the echo is accepted iff header == rx_header and it is addressed to the sender (incl. placeholder/real gateway id)", "rows": len(rows_e)})
     out.append(r5)
     return out
 
